@@ -30,6 +30,7 @@ import z3
 from contracts import jumpi_unit as JU
 from pyvc import loader
 from pyvc.interp import PathEnd, _ENGINE
+from contracts.common import replay_script  # noqa: E402
 from pyvc.pack import Case
 
 loader.import_repo()
@@ -343,12 +344,16 @@ def calldataload_cases():
     import halmos.sevm as hs
 
     out = []
-    for shape in ("plain word", "size symbol with 3 candidates", "size symbol already fixed by the path", "symbol without candidates"):
+    for shape in ("plain word", "size symbol with 3 candidates", "size symbol with 1 candidate", "size symbol with 2 candidates", "size symbol already fixed by the path", "symbol without candidates"):
 
         def harness(interp, shape=shape):
             ctx = interp.ctx
             sym = z3.BitVec("p_bytes_length", 256)
             cands = [0, 32, 65]
+            if shape == "size symbol with 1 candidate":
+                cands = [65]
+            elif shape == "size symbol with 2 candidates":
+                cands = [0, 65]
             conc = hs.Concretization()
             loaded = sym
             if shape == "plain word":
@@ -366,7 +371,8 @@ def calldataload_cases():
                 st.push_any = lambda v: st.items.append(v)
                 return st
 
-            ex = NS(pc=11, path=NS(concretization=conc), st=mk_state())
+            appended = []
+            ex = NS(pc=11, path=NS(concretization=conc, appended=appended, append=lambda c, branching=False: appended.append((c, branching))), st=mk_state())
             ex.st.pop = lambda: hb.HalmosBitVec(4)
             ex.int_of = lambda x, msg=None: 4
             ex.calldata = lambda: NS(get_word=lambda off: loaded if off == 4 else None)
@@ -374,7 +380,7 @@ def calldataload_cases():
             branches = []
 
             def create_branch(e, cond, pc):
-                nx = NS(pc=pc, st=mk_state(), cond=cond)
+                nx = NS(pc=pc, st=mk_state(), cond=inherit(e, cond))
                 nx.advance = lambda: advanced.append(nx)
                 branches.append(nx)
                 return nx
@@ -382,6 +388,15 @@ def calldataload_cases():
             sevm = NS(create_branch=create_branch)
             stack = NS(push=lambda e: pushed.append(e))
             interp.call(hs.SEVM.__dict__["calldataload"], [sevm, ex, stack], {})
+            if shape.startswith("size symbol with"):
+                # whatever the number of candidates: a state that goes on with a concrete size has that size among its constraints
+                for p_ in pushed:
+                    v = p_.st.items[0] if len(p_.st.items) == 1 else None
+                    cnd = p_.cond if p_ is not ex else (z3.And(*[c for c, _ in appended]) if appended else z3.BoolVal(True))
+                    if isinstance(v, int) or (hasattr(v, "is_concrete") and v.is_concrete):
+                        vv = v if isinstance(v, int) else v.value
+                        ctx.oblige("a state that continues with a concrete length carries `length symbol == that length` in its path (the calldata stays one well-formed encoding)", z3.Implies(cnd, sym == vv), info={"value": str(vv)})
+                ctx.oblige("coverage: size in candidates => some continued state's condition holds", z3.Implies(z3.Or(*[sym == c_ for c_ in cands]), z3.Or(*[(p_.cond if p_ is not ex else z3.BoolVal(True)) for p_ in pushed]) if pushed else z3.BoolVal(False)))
             if shape == "size symbol with 3 candidates":
                 ok = len(branches) == 3 and pushed == branches and all(b in advanced for b in branches) and ex not in pushed
                 ctx.oblige("one successor per configured candidate, each pushed and advanced, the undecided state is not continued", z3.BoolVal(ok), info={"branches": len(branches)})
@@ -391,6 +406,8 @@ def calldataload_cases():
                         ctx.oblige(f"candidate {cnd}: successor carries exactly size == candidate and loads that value", z3.And(b.cond == (sym == cnd), z3.BoolVal(len(b.st.items) == 1 and isinstance(b.st.items[0], int) and b.st.items[0] == cnd and b.pc == 11)))
                 # sigma-coverage within the reported bounds: every valuation whose size is a candidate is covered
                 ctx.oblige("coverage: size in candidates => some successor's condition holds", z3.Implies(z3.Or(*[sym == c_ for c_ in cands]), z3.Or(*[b.cond for b in branches]) if branches else z3.BoolVal(False)))
+            elif shape.startswith("size symbol with"):
+                ctx.oblige("every continued state is advanced and pushed exactly once", z3.BoolVal(len(pushed) >= 1 and all(p_ in advanced for p_ in pushed) and len(set(map(id, pushed))) == len(pushed)))
             else:
                 want = {"plain word": loaded, "size symbol already fixed by the path": z3.BitVecVal(32, 256), "symbol without candidates": sym}[shape]
                 ok = not branches and pushed == [ex] and advanced == [ex] and len(ex.st.items) == 1
@@ -399,7 +416,7 @@ def calldataload_cases():
                     got = ex.st.items[0]
                     ctx.oblige("loaded word is the calldata word (or the value the path already fixes it to)", got == want)
 
-        out.append(Case(f"{PROP}/sevm.SEVM.calldataload", shape, harness, sources=("halmos.sevm:SEVM.calldataload",)))
+        out.append(Case(f"{PROP}/sevm.SEVM.calldataload", shape, harness, replay=replay_script("single_length_candidate.py", "f(uint256[] x) with one configured length: is the length word of msg.data tied to the explored length?"), sources=("halmos.sevm:SEVM.calldataload",)))
     return out
 
 
@@ -422,7 +439,7 @@ def funds_cases():
         pushed, branches = [], []
 
         def create_branch(e, cond, pc):
-            nx = NS(pc=pc, cond=cond, context=NS(trace=[]), st=NS(items=[]), advanced=[])
+            nx = NS(pc=pc, cond=inherit(e, cond), context=NS(trace=[]), st=NS(items=[]), advanced=[])
             nx.st.push = lambda v: nx.st.items.append(v)
             nx.advance = lambda: nx.advanced.append(1)
             branches.append(nx)
@@ -508,6 +525,13 @@ def funds_cases():
 # resolve_address_alias: every address a symbolic target may denote is covered
 
 
+def inherit(e, cond):
+    """contract of create_branch: the successor inherits what the parent path holds at the time of the call"""
+    app = getattr(getattr(e, "path", None), "appended", None) or []
+    inh = [c[0] if isinstance(c, tuple) else c for c in app]
+    return z3.And(*inh, cond) if inh else cond
+
+
 def alias_cases():
     import halmos.sevm as hs
     from halmos.exceptions import InfeasiblePath
@@ -527,7 +551,10 @@ def alias_cases():
         branches, pushed = [], []
 
         def create_branch(e, cond, pc):
-            nx = NS(cond=cond, pc=pc, alias=dict(e.alias))
+            # contract of create_branch (proved in this pack): the successor's path is the parent's path AS IT IS AT
+            # THE TIME OF THE CALL plus the pending condition, so whatever the parent has already appended is inherited
+            inherited = [c for c, _ in e.path.appended]
+            nx = NS(cond=z3.And(*inherited, cond) if inherited else cond, own=cond, pc=pc, alias=dict(e.alias))
             branches.append(nx)
             return nx
 
@@ -631,7 +658,7 @@ def symbolic_jump_cases():
             branches, pushed = [], []
 
             def create_branch(e, cond, pc):
-                nx = NS(cond=cond, pc=pc, context=NS(output=NS(error=None, data=None)))
+                nx = NS(cond=inherit(e, cond), pc=pc, context=NS(output=NS(error=None, data=None)))
                 branches.append(nx)
                 return nx
 
